@@ -353,7 +353,9 @@ func baseTrees() []fsmodel.Tree {
 	trees = append(trees, fsmodel.Tree{{Path: "whole", Kind: fsmodel.File, Perm: 0644, Mtime: T, Data: fsmodel.Content(61, 9)},
 		{Path: "old", Kind: fsmodel.File, Perm: 0644, Mtime: -3*1e9 + 250000000, Data: fsmodel.Content(62, 4)},
 		{Path: "olddir", Kind: fsmodel.Dir, Perm: 0755, Mtime: -86400*1e9 - 1}, {Path: "olddir/whole2", Kind: fsmodel.File, Perm: 0600, Mtime: T - 1e9, Data: fsmodel.Content(63, 5)},
-		{Path: "oldlink", Kind: fsmodel.Symlink, Perm: 0777, Mtime: -1, Link: "old"}})
+		{Path: "oldlink", Kind: fsmodel.Symlink, Perm: 0777, Mtime: -1, Link: "old"},
+		// ... exactly the epoch (SOURCE_DATE_EPOCH=0, archives with zeroed timestamps)
+		{Path: "epoch", Kind: fsmodel.File, Perm: 0644, Mtime: 0, Data: fsmodel.Content(64, 7)}, {Path: "olddir/epoch2", Kind: fsmodel.Symlink, Perm: 0777, Mtime: 0, Link: "whole2"}})
 	trees[3][0].HL = 1
 	for i := range trees {
 		trees[i].Sort()
